@@ -111,7 +111,7 @@ where
     /// Get the amount of tracks kept in wasted store per shard
     ///
     fn wasted_shard_stats(&self) -> Vec<usize> {
-        self.get_main_store().shard_stats()
+        self.get_wasted_store().shard_stats()
     }
 
     /// Clears wasted tracks
